@@ -35,6 +35,8 @@ import (
 // every trace ("new" event) and compared with the specification's own table there.
 var (
 	verStr     = []string{"0.0.0", "1.0.0", "1.1.0", "1.2.0-beta", "2.0.0-rc", "2.0.0"}
+	// the same versions in other spellings the version parser accepts (an index file may say 1.0 where a file name says 1-0-0)
+	verAlt = []string{"0.0", "1.0", "v1.1.0", "1.2-beta", "v2.0.0-rc", "2"}
 	identifier = "pkg/sub.d/tool.tar.gz"
 	// where the driver puts the file of an available version (documented format, written out by hand)
 	fileNames = []string{
@@ -52,6 +54,7 @@ type op struct {
 	Idx   string `json:"idx"`
 	Flag  bool   `json:"flag"`
 	Keep  int    `json:"keep"`
+	Alt   bool   `json:"alt"` // Add: the version is spelled in its other form
 }
 
 type res struct {
@@ -162,7 +165,11 @@ func (w *world) exec(o op) (r res) {
 		case "manual":
 			idx = w.idxManual
 		}
-		if err := w.reg.AddResource(identifier, verStr[o.V-1], idx, o.Avail, o.Cur, o.Pre); err != nil {
+		spelled := verStr[o.V-1]
+		if o.Alt {
+			spelled = verAlt[o.V-1]
+		}
+		if err := w.reg.AddResource(identifier, spelled, idx, o.Avail, o.Cur, o.Pre); err != nil {
 			return res{Err: "adderr"}
 		}
 		return res{}
